@@ -228,7 +228,14 @@ def run(res, tier, seed, model_ok, search):
                 "after every update the worst case is recomputed from the individual fills and compared with the limits. non-trivial = an exposure "
                 "decision was taken; distinct = scenario index")
     simcheck.run(res, "C01", tier, seed, model_ok, search, n_quick=400, n_thorough=10000, directed=directed())
+    # decision domain: the real StrategyExposure control on real blotters (line-range orders, unknown ladders, every limit
+    # configuration incl. 0, PLACE / REPLACE / CANCEL / UPDATE, validate_order refusing) against the model's strategyExposure
+    import decisiondomain
+    decisiondomain.run(res, tier, seed, model_ok, search)
 
 
 def replay(payload):
+    if (payload.get("replay") or {}).get("domain") == "decision":
+        import decisiondomain
+        return decisiondomain.replay(payload)
     return simcheck.generic_replay("C01", payload)
